@@ -21,4 +21,6 @@ CONSTANTS
   LimWidth = 1
   GzIdx = {1, 2, 3, 4}
   GzFrs = {"cl", "ch"}
+  GzDrops = {0}
+  GzRespFrs = {"cl"}
 CHECK_DEADLOCK FALSE
